@@ -15,6 +15,7 @@ import (
 	"verifharness/props/c06"
 	"verifharness/props/c07"
 	"verifharness/props/c08"
+	"verifharness/props/c09"
 	"verifharness/props/c12"
 	"verifharness/props/c13"
 	"verifharness/props/c15"
@@ -24,6 +25,7 @@ import (
 
 var registry = map[string]func() fw.Prop{
 	"C02": func() fw.Prop { return c02.Prop{} },
+	"C09": func() fw.Prop { return c09.Prop{} },
 	"C03": func() fw.Prop { return c03.Prop{} },
 	"C04": func() fw.Prop { return c04.Prop{} },
 	"C06": func() fw.Prop { return c06.Prop{} },
